@@ -6,5 +6,6 @@ func init() {
 			"the reference computations (math/big progression, reflect, strconv, fmt.Sprint, Go conversions) are the specification of the builtins",
 			"runtime.FuncForPC names a top-level Go function <import path>.<name>; a table entry is the function it is listed under iff that name matches",
 			"a range call that produces no answer within 5 s (10 s when re-run alone) or grows the heap beyond 128 MiB, for a progression of at most 1000 elements, does not terminate in practice",
+			"conv_overlap: what a conversion builtin returns is a function of its argument alone, so calls made at the same time (other environments, one shared environment, script goroutines) must give the results they give alone; whether two calls really overlap is up to the scheduler - a failure is a result that differs from the Go reference, a pass says the sampled overlaps showed none",
 			"not asserted: float->int outside int64, strings strconv accepts that are not decimal numerals (inf, nan, hex floats, underscores), numerals outside float64, toInt/toFloat of bool, pointers, structs, functions, channels; conversions the call machinery applies to arguments of another type than the parameter; values (as opposed to functions and types) of package table variables")})
 }
